@@ -198,28 +198,19 @@ open EraVerif.Proofs.RpcLimit
 abbrev rfinal (cfg : Cfg) (kind : Kind) (n : Nat) (evs : List Event) : EraVerif.Model.RpcLimit.State :=
   EraVerif.Model.RpcLimit.run cfg kind (EraVerif.Model.RpcLimit.init cfg n) evs
 
-theorem rfinal_inv (cfg : Cfg) (hb : cfg.burst ≤ USIZE_MAX) (hr : 0 < cfg.refresh) (kind : Kind) (n : Nat)
-    (evs : List Event) : RInv cfg kind (rfinal cfg kind n evs) :=
-  rinv_run hb hr kind evs _ (rinv_init cfg kind n)
-
-theorem rfinal_winv (cfg : Cfg) (hb : cfg.burst ≤ USIZE_MAX) (hr : 0 < cfg.refresh) (kind : Kind) (n : Nat)
-    (evs : List Event) (a T : Nat) : WInv cfg a (a + T) (rfinal cfg kind n evs) :=
-  winv_run hb hr kind (Nat.le_add_right a T) evs _ (rinv_init cfg kind n)
-    (winv_init cfg a (a + T) (Nat.le_add_right a T) n)
-
 /-- **opens_rate_limited.** The OPEN frames a node sends for one capability of one connection inside any
 window `[a, a+T]` number at most `burst + ⌊T/refresh⌋ + 1`, whatever the peer does (one limiter permit per
 OPEN, the limiter shared by the capability's streams). -/
 theorem opens_rate_limited (cfg : Cfg) (hb : cfg.burst ≤ USIZE_MAX) (hr : 0 < cfg.refresh) (kind : Kind)
     (n : Nat) (evs : List Event) (a T : Nat) :
     wsum a (a + T) (rfinal cfg kind n evs).sent ≤ cfg.burst + T / cfg.refresh.toNat + 1 :=
-  (rfinal_winv cfg hb hr kind n evs a T).qs.bound (by unfold rOf; omega)
+  (winv_reach cfg hb hr kind n evs a T).qs.bound (by unfold rOf; omega)
 
 /-- The transient streams established (handed to a call) inside any window obey the same bound. -/
 theorem established_rate_limited (cfg : Cfg) (hb : cfg.burst ≤ USIZE_MAX) (hr : 0 < cfg.refresh) (kind : Kind)
     (n : Nat) (evs : List Event) (a T : Nat) :
     wsum a (a + T) (rfinal cfg kind n evs).lim.dlog ≤ cfg.burst + T / cfg.refresh.toNat + 1 :=
-  (rfinal_winv cfg hb hr kind n evs a T).qd.bound (by unfold rOf; omega)
+  (winv_reach cfg hb hr kind n evs a T).qd.bound (by unfold rOf; omega)
 
 /-- **requests_started_window_bound.** The handler invocations (requests a node starts serving) for one RPC
 kind on one connection inside any window `[a, a+T]` number at most
@@ -228,7 +219,7 @@ stream was opened before the window, plus the streams opened inside it. -/
 theorem requests_started_window_bound (cfg : Cfg) (hb : cfg.burst ≤ USIZE_MAX) (hr : 0 < cfg.refresh)
     (kind : Kind) (n : Nat) (evs : List Event) (a T : Nat) :
     hWin a (a + T) (rfinal cfg kind n evs).handled ≤ n + cfg.burst + T / cfg.refresh.toNat + 1 := by
-  have w := rfinal_winv cfg hb hr kind n evs a T
+  have w : WInv cfg a (a + T) (rfinal cfg kind n evs) := winv_reach cfg hb hr kind n evs a T
   have h1 := w.hn
   have h2 := w.ho
   have h3 := (w.qd.bound (by unfold rOf; omega) : _ ≤ cfg.burst + T / rOf cfg + 1)
@@ -260,7 +251,7 @@ theorem handler_only_after_open (cfg : Cfg) (hb : cfg.burst ≤ USIZE_MAX) (hr :
     (n : Nat) (evs : List Event) :
     (rfinal cfg kind n evs).handled.length + (rfinal cfg kind n evs).streams.countP isIdle
       ≤ (rfinal cfg kind n evs).lim.dropped :=
-  (rfinal_inv cfg hb hr kind n evs).handled_le
+  (rinv_reach cfg hb hr kind n evs).handled_le
 
 /-- **one_permit_per_open.** Every OPEN frame was sent under its own limiter permit: consumed permits ≤ OPENs
 sent ≤ permits granted, and the permits currently reserved are exactly the streams in the OPEN exchange. -/
@@ -269,7 +260,7 @@ theorem one_permit_per_open (cfg : Cfg) (hb : cfg.burst ≤ USIZE_MAX) (hr : 0 <
     (rfinal cfg kind n evs).lim.dropped ≤ (rfinal cfg kind n evs).sent.length ∧
     (rfinal cfg kind n evs).sent.length ≤ (rfinal cfg kind n evs).lim.granted ∧
     (rfinal cfg kind n evs).lim.reserved = (rfinal cfg kind n evs).streams.countP isGranted := by
-  have h := rfinal_inv cfg hb hr kind n evs
+  have h : RInv cfg kind (rfinal cfg kind n evs) := rinv_reach cfg hb hr kind n evs
   exact ⟨(sent_le_granted h).1, (sent_le_granted h).2, h.res_count⟩
 
 /-- non-vacuity: a server stream (CONNECT kind) of a connection with one ping stream goes through a whole
